@@ -364,6 +364,11 @@ func (h *SimH) do(q *Req, c flamego.Context, rw http.ResponseWriter, r *http.Req
 				q.Note("hijack:ok")
 			}
 		}
+	case OpCopy:
+		if rw != nil {
+			attempt()
+			_, _ = io.Copy(rw, struct{ io.Reader }{strings.NewReader(string(h.body(q, int(a.A))))})
+		}
 	case OpSetCT:
 		if rw != nil {
 			rw.Header().Set("Content-Type", "application/json")
@@ -390,7 +395,9 @@ func (h *SimH) do(q *Req, c flamego.Context, rw http.ResponseWriter, r *http.Req
 			name := q.Name
 			boom := a.A == 1
 			hid, pos := h.HID, h.Pos
+			q.ev(EvRHMapped, h.HID, 0, "")
 			c.Map(flamego.ReturnHandler(func(cc flamego.Context, vals []reflect.Value) {
+				q.ev(EvRHCall, hid, 0, "")
 				if boom {
 					_ = hid
 					q.ev(EvRaise, -1, PvString, "") // attributed to the handler whose return value is being rendered
